@@ -213,7 +213,7 @@ func orderScenarios(thorough bool) []*scenario {
 	}
 	d := 3
 	if thorough {
-		d = 5
+		d = 4
 	}
 	mk("order/plain", "plain", []string{"1", "0", `"b"`, `"a"`, "@s1"}, d, true)
 	mk("order/plain-numeric", "plain", []string{`"1"`, `"01"`, `"-0"`, `"4294967295"`, `"4294967294"`, "@s1"}, d, false)
@@ -543,9 +543,9 @@ func pairScenarios(thorough bool) []*scenario {
 			}
 		}
 		cfg.formal = kindSpecs[p.kind].Class == "arguments"
-		depth := 3
+		depth := 2
 		if thorough {
-			depth = 0
+			depth = 4
 		}
 		res = append(res, &scenario{Name: fmt.Sprintf("pair/%s/%s+%s", p.kind, groupName(p.a), groupName(p.b)), Kind: p.kind, Variant: "natural",
 			ChainKeys: append(append(keyGroup{}, p.a...), p.b...), Ops: buildOps([]keyGroup{p.a[:1], p.b[:1]}, cfg), LeafAux: true, MaxDepth: depth, Cost: 1 << 19})
